@@ -11,7 +11,7 @@ poll loop, real threads writing concurrently, and dsh()'s own "targets span doma
 import os
 import subprocess
 
-from vlib.common import HARNESS, hexs
+from vlib.common import HARNESS, hexs, unhex
 from vlib import relay
 
 REAL_POOLS = [
@@ -29,12 +29,22 @@ REAL_POOLS = [
 ]
 
 
-def run_group(cmd, timeout):
-    """run pdsh in its own process group; on timeout kill the whole group (pdsh + its exec children)"""
+def run_group(cmd, timeout, capture="pipe", d=None):
+    """run pdsh in its own process group; on timeout kill the whole group (pdsh + its exec children).
+    capture: pdsh's stdout/stderr are pipes, or regular files in `d`"""
     import signal
-    p = subprocess.Popen(cmd, stdout=subprocess.PIPE, stderr=subprocess.PIPE, start_new_session=True)
+    if capture == "file":
+        fo, fe = open(os.path.join(d, "pdsh.stdout"), "wb"), open(os.path.join(d, "pdsh.stderr"), "wb")
+        p = subprocess.Popen(cmd, stdout=fo, stderr=fe, start_new_session=True)
+        fo.close()
+        fe.close()
+    else:
+        p = subprocess.Popen(cmd, stdout=subprocess.PIPE, stderr=subprocess.PIPE, start_new_session=True)
     try:
         so, se = p.communicate(timeout=timeout)
+        if capture == "file":
+            so = open(os.path.join(d, "pdsh.stdout"), "rb").read()
+            se = open(os.path.join(d, "pdsh.stderr"), "rb").read()
         return p.returncode, so, se
     except subprocess.TimeoutExpired:
         try:
@@ -102,6 +112,13 @@ def gen_payload(rng, host, stream, big):
         body = relay.gen_text(rng, ln)
         out.append((head + body)[:max(ln, 0)] if ln < len(head) and rng.random() < 0.5 else head + body)
         out[-1] = out[-1].replace(b"\n", b" ") + b"\n"
+    if rng.random() < 0.15:
+        # a chatty ending: after a line that made pdsh's buffer grow, a burst of very many very short lines (one
+        # write, so pdsh finds tens to hundreds of complete lines in one read)
+        out.append(b"%s %s grow " % (host, stream) + relay.gen_text(rng, rng.choice([64, 200, 1000])) + b"\n")
+        w = rng.choice([0, 1, 2, 3])
+        for k in range(rng.choice([65, 129, 200, 400, 800])):
+            out.append(relay.gen_text(rng, w) + b"\n")
     r = rng.random()
     if r < 0.6:
         tl = rng.choice([1, 2, 10, 63, 64, 65, 500, 1000, 4000, 8000, 8190, 8191])
@@ -158,8 +175,25 @@ def gen_spec(ctx, r):
         if style == "bytes" and len(o) + len(e) > 3000:
             o, e = o[:2000], e[:500]
         hosts[h.decode()] = {"out": hexs(o), "err": hexs(e), "plan": gen_plan(rng, o, e, style)}
+    fanout = rng.choice([1, 2, 4, 32, 64, 64])
+    # Targets whose command cannot be started: some hosts end by making the command vanish (ENOENT) or lose its
+    # execute permission (EACCES) for a while, so that execvp() fails in the transport's forked child for the
+    # targets pdsh starts next -- before, between and after hosts whose output ends in an unterminated fragment.
+    # Which targets were hit is read off afterwards (HOST.ran); such a target must contribute no record at all.
+    if k >= 2 and rng.random() < 0.4:
+        fanout = rng.choice([1, 1, 1, 2, 4])
+        order = [t.decode() for t in targets]
+        for h in rng.sample(order[:-1], rng.randrange(1, min(4, k))):       # not the last: somebody must follow
+            if rng.random() < 0.6 and unhex(hosts[h]["out"])[-1:] in (b"", b"\n"):
+                # ... most often right after an unterminated final fragment of this host
+                o = unhex(hosts[h]["out"]) + (b"%s out tail " % h.encode() + relay.gen_text(rng, rng.choice([1, 20, 300])))
+                e = unhex(hosts[h]["err"])
+                hosts[h] = {"out": hexs(o), "err": hexs(e), "plan": gen_plan(rng, o, e, style)}
+            hosts[h]["plan"].append("%s %d" % (rng.choice("UX"), rng.choice([3000, 10000, 30000, 60000])))
     return {"kind": "real-run", "targets": [t.decode() for t in targets], "labels": labels, "K": optK,
-            "fanout": rng.choice([1, 2, 4, 32, 64, 64]), "write_style": style, "hosts": hosts}
+            "fanout": fanout, "write_style": style, "hosts": hosts,
+            # pdsh's stdout/stderr are a pipe or a file: fully buffered stdio either way, different flush points
+            "capture": rng.choice(["pipe", "file"])}
 
 
 def exec_spec(ctx, prop, spec, pdsh, writer, d, real):
@@ -180,12 +214,22 @@ def exec_spec(ctx, prop, spec, pdsh, writer, d, real):
         cmd.append("-N")
     if optK:
         cmd.append("-K")
-    cmd += [writer, d, "%h"]
-    rc, so, se = run_group(cmd, 40 if ctx.quick() else 120)
+    # the command is a private copy of the writer (the U/X plan ops rename / chmod it)
+    mycmd = os.path.join(d, "cmd")
+    import shutil
+    shutil.copy(writer, mycmd)
+    os.chmod(mycmd, 0o755)
+    cmd += [mycmd, d, "%h"]
+    rc, so, se = run_group(cmd, 40 if ctx.quick() else 120, capture=spec.get("capture", "pipe"), d=d)
+    # targets whose command was never started (execvp failed in the transport's child)
+    notrun = [t for t in targets if not os.path.exists(os.path.join(d, t.decode() + ".ran"))]
+    real["exec_failed_hosts"] = real.get("exec_failed_hosts", 0) + len(notrun)
+    real["runs_with_exec_failure"] = real.get("runs_with_exec_failure", 0) + (1 if notrun else 0)
+    real["capture_" + spec.get("capture", "pipe")] = real.get("capture_" + spec.get("capture", "pipe"), 0) + 1
     real["runs"] += 1
     real["hosts"] += len(targets)
     real["bytes"] += len(so) + len(se)
-    case = dict(spec, cmd=" ".join(cmd[:-3]) + " relay_writer DIR %h",
+    case = dict(spec, cmd=" ".join(cmd[:-3]) + " DIR/cmd(=relay_writer) DIR %h", exec_failed=[t.decode() for t in notrun],
                 pdsh_stdout_head=so[:400].decode("latin-1"), pdsh_stderr_head=se[:400].decode("latin-1"), rc=rc)
     if rc != 0:
         return ("crash" if rc != -999 else "timeout",
@@ -195,13 +239,27 @@ def exec_spec(ctx, prop, spec, pdsh, writer, d, real):
         pass
     c = C()
     c.targets, c.optK, c.labels = targets, optK, labels
+    if notrun:
+        # pdsh's own diagnostics about such a target go to stderr: the child's "execvp ... failed" line (relayed
+        # under the target's label) and "pdsh@host: target: cmd exited with exit code 255".  The properties say
+        # nothing about them; they are taken out of stderr (whole lines, wherever they start).  stdout is judged
+        # as it is: a target that could not be started contributes NO record.
+        import re
+        labs = set()
+        for i, t in enumerate(targets):
+            if t in notrun:
+                labs.add(re.escape(relay.py_label(c, i) + b": "))
+        pat = re.compile(b"(?:" + b"|".join(sorted(labs)) + b")?pdsh@[^\n]*\n") if labels else \
+            re.compile(b"pdsh@[^\n]*\n")
+        se = pat.sub(b"", se)
     for which, data, sel in (("stdout", so, 0), ("stderr", se, 1)):
         whole, split, loose = [], [], []
         for i, h in enumerate(targets):
             prefix = (relay.py_label(c, i) + b": ") if labels else b""
-            whole.append(records(prefix, payloads[h][sel]))
-            split.append(records(prefix, payloads[h][sel], split_tail=True))
-            loose.append(records(prefix, payloads[h][sel], split_tail=True, split_all=True))
+            pl = b"" if h in notrun else payloads[h][sel]
+            whole.append(records(prefix, pl))
+            split.append(records(prefix, pl, split_tail=True))
+            loose.append(records(prefix, pl, split_tail=True, split_all=True))
         if parse_shuffle(data, whole):
             continue
         if parse_shuffle(data, split):
